@@ -20,6 +20,9 @@ _add("C01", *_REACH, "Pfdl.Props.C01.no_stall", "Pfdl.Props.C01.awaited_eq_outst
      "Pfdl.Props.C01.nothing_awaited_when_finished", "Pfdl.Props.C01.running_iff", "Pfdl.Props.C01.running_iff_init",
      "Pfdl.Props.C01.running_iff_full_false", "Pfdl.Props.C01.finished_absorbing",
      "Pfdl.Props.C01.production_task_finished_once", *_REACHT)
+# C01 at the net layer (the model of generator.py / logic.py / the callbacks as the code does them)
+_add("C01", "Pfdl.Net.C01.final_place_exclusive_partial", "Pfdl.Net.C01.weighted_sum_constant", "Pfdl.Net.keeps",
+     "Pfdl.Net.history_keeps", "Pfdl.Net.certCheck_sound", "Pfdl.Net.wsum_fireT")
 _add("C07", *_REACHT, "Pfdl.Props.C07.services_balanced", "Pfdl.Props.C07.tasks_balanced", "Pfdl.Props.C07.all_finished_at_end",
      "Pfdl.Props.C07.production_task_notes", "Pfdl.Props.C07.service_finished_timely")
 _add("C14", *_REACHT, "Pfdl.Props.C14.ids_consecutive", "Pfdl.Props.C14.unique_services", "Pfdl.Props.C14.unique_tasks",
